@@ -1503,8 +1503,27 @@ func genWorldC11(seed uint64, tornOthers bool) *World {
 			var p Project
 			if len(w.Objects) > 0 && r.pct(25) {
 				p = w.Objects[r.n(len(w.Objects))] // the same text in several tasks (own object each)
+				p.ShareWith, p.RulesOnly = 0, false
 			} else {
 				p = genProject(r, torn)
+			}
+			if len(w.Objects) > 0 && r.pct(25) {
+				// a schema of its own that registers enum rule OBJECTS another task's
+				// schema registers too (rule objects are made once and used by many
+				// schemas; the type objects stay this task's own)
+				d := r.n(len(w.Objects))
+				if dp := w.Objects[d]; dp.Kind == "jschema" && len(dp.Rules) > 0 && dp.ShareWith == 0 && !(shared >= 0 && d == shared) {
+					p = dp
+					p.ShareWith, p.RulesOnly = d+1, true
+					if r.pct(40) {
+						var enums []string
+						for _, ru := range dp.Rules {
+							enums = append(enums, ru.Name)
+						}
+						p.Text = genSchemaText(r, []string{"@a"}, enums)
+						p.Types = nil
+					}
+				}
 			}
 			o := len(w.Objects)
 			w.Objects = append(w.Objects, p)
